@@ -168,7 +168,7 @@ def _b(d):
     return bytes(d)
 
 
-def run_recv_script(stream, script, segs=None, ending="eof", ws_kwargs=None, timeout=5, head_cuts=None, max_timeouts=50):
+def run_recv_script(stream, script, segs=None, ending="eof", ws_kwargs=None, timeout=5, head_cuts=None, max_timeouts=50, nonblocking=False):
     """Run `script` (list of (name, control_frame)) against `stream` delivered
     behind the handshake response.  segs: list of bytes/(TIMEOUT,None) items
     for the frame part (default: one segment).  Returns dict with the observed
@@ -242,9 +242,13 @@ def run_recv_script(stream, script, segs=None, ending="eof", ws_kwargs=None, tim
                 c.peer_reset()
         peer.on_open = on_open
     w.connect("ws://sim.test/", socket=so)
+    if nonblocking:
+        # switch to non-blocking mode after the opening handshake, as an event-loop integration would
+        w.settimeout(0)
     resp_len = len(peer.response_bytes)
     trace = []
     timeouts = 0
+    wouldblocks = 0
     post_timeout_bad = []
     for name, cf in script:
         before_w = len(peer.client_stream)
@@ -264,6 +268,14 @@ def run_recv_script(stream, script, segs=None, ending="eof", ws_kwargs=None, tim
                 if isinstance(e, (sched.SimAbort, KeyboardInterrupt)):
                     raise
                 k = classify_exc(W, e)
+                if nonblocking and isinstance(e, BlockingIOError) and state.get("pending", 0) > 0 and tries < 10 * max_timeouts:
+                    # nothing to read right now: come back when the next segment is there
+                    wouldblocks += 1
+                    tries += 1
+                    if not w.connected or so._closed:
+                        post_timeout_bad.append((len(trace), w.connected, so._closed))
+                    sched.CURRENT.sleep(0.5)
+                    continue
                 if k == "timeout" and (conn.rx or state.get("pending", 0) > 0) and tries < max_timeouts:
                     # an injected timeout: the call is retried
                     timeouts += 1
@@ -280,7 +292,7 @@ def run_recv_script(stream, script, segs=None, ending="eof", ws_kwargs=None, tim
                       "consumed": conn.consumed - resp_len})
         if out[0] == "exc" or (name != "recv_frame" and not w.connected):
             break
-    return {"trace": trace, "timeouts": timeouts, "post_timeout_bad": post_timeout_bad, "conn": conn, "ws": w,
+    return {"trace": trace, "timeouts": timeouts, "wouldblocks": wouldblocks, "post_timeout_bad": post_timeout_bad, "conn": conn, "ws": w,
             "sock": so, "peer": peer, "resp_len": resp_len}
 
 
